@@ -506,6 +506,45 @@ func TestVerifC11(t *testing.T) {
 		wd.probe(out, c, e, q)
 	}
 
+	// --- isPublicResource on its own
+	alphabet := []string{"/", "/", ".", "a", "b", "login", "assets", "login.", "assets/", "*", "?", "[", "]", "\\", "\xc3\xa9", "\xff", "html", "..", "%2f", " "}
+	pubPaths := append([]string{}, paths...)
+	pubPaths = append(pubPaths, "/assets/\xff", "/login.\xc3\xa9", "/assets/*", "/login.[a]", "/assets/a\\b", "/login.html?x", "/assets//", "//assets/a", "/login./")
+	np := out.Scale(400, 4000)
+	for i := 0; i < np; i++ {
+		var sb strings.Builder
+		if rnd.Chance(2, 3) {
+			sb.WriteString(vfPick(rnd, []string{"/assets/", "/login.", "/assets", "/login"}))
+		}
+		for k := rnd.Intn(5); k > 0; k-- {
+			sb.WriteString(alphabet[rnd.Intn(len(alphabet))])
+		}
+		pubPaths = append(pubPaths, sb.String())
+	}
+	for _, p := range pubPaths {
+		obs, panicked := false, false
+		func() {
+			defer func() {
+				if recover() != nil {
+					panicked = true
+				}
+			}()
+			obs = isPublicResource(p)
+		}()
+		monOK, msg := true, ""
+		if panicked {
+			monOK, msg = false, fmt.Sprintf("isPublicResource(%q) panics", p)
+		} else if obs != c11Public(p) {
+			monOK, msg = false, fmt.Sprintf("isPublicResource(%q) = %v: not what the property calls a static asset or the login page", p, obs)
+		}
+		cl := "public-no"
+		if obs {
+			cl = "public-yes"
+		}
+		out.Emit(vfCase{Coq: vfApp("C11.CPublic", vfBytes(p), vfBool(obs)), Nontrivial: obs, MonitorOK: monOK, MonitorMsg: msg,
+			FindingKey: "c11-public-glob", Classes: []string{cl}, Desc: map[string]any{"kind": "isPublicResource", "path": p, "public": obs}})
+	}
+
 	// --- the routes of the source
 	routes := c11LoadRoutes(t)
 	wd.setEnv(normal)
